@@ -22,11 +22,24 @@ static const uint8_t MY[6] = {0x02, 0x0b, 0x0b, 0x0b, 0x0b, 0x02};
 static const uint8_t MZ[6] = {0x02, 0x0c, 0x0c, 0x0c, 0x0c, 0x03};
 
 static unsigned long long n_viol = 0;
-static int viol_cap = 40;
+/* per-key cap: the first few witnesses of every key are printed, all are counted */
+#define VK_MAX 512
+static struct { char key[160]; unsigned long long n; } vk[VK_MAX];
+static int nvk = 0;
+static int viol_per_key = 4;
 
 static void viol(const char *key, const char *fmt, ...) {
     n_viol++;
-    if (n_viol > (unsigned long long)viol_cap) return;
+    int i;
+    for (i = 0; i < nvk; i++) if (!strcmp(vk[i].key, key)) break;
+    if (i == nvk) {
+        if (nvk == VK_MAX) return;
+        snprintf(vk[i].key, sizeof(vk[i].key), "%s", key);
+        vk[i].n = 0;
+        nvk++;
+    }
+    vk[i].n++;
+    if (vk[i].n > (unsigned long long)viol_per_key) return;
     va_list ap;
     printf("VIOL %s ", key);
     va_start(ap, fmt);
@@ -34,6 +47,10 @@ static void viol(const char *key, const char *fmt, ...) {
     va_end(ap);
     printf("\n");
     fflush(stdout);
+}
+
+static void viol_summary(void) {
+    for (int i = 0; i < nvk; i++) printf("VIOLCOUNT %s %llu\n", vk[i].key, vk[i].n);
 }
 
 static void stat_ull(const char *name, unsigned long long v) { printf("STAT %s %llu\n", name, v); }
@@ -149,6 +166,7 @@ static void c05_child(int tos) {
     stat_ull("cases", probes);
     stat_ull("distinct_nontrivial", nontrivial);
     stat_ull("violations", n_viol);
+    viol_summary();
     fflush(stdout);
 }
 
@@ -419,7 +437,7 @@ static int sweep_c13(int argc, char **argv) {
             viol("C13:interval-below-load-formula", "r=%llu Ni=%u: interval %llu ms < %llu ms", r, b.Ni,
                  (unsigned long long)iv, (unsigned long long)need);
         }
-        if (have_prev && begun) {
+        if (have_prev && begun && r >= 2) {   /* the formula (hence monotonicity) applies to r > 0 only */
             if (b.Ni < prev_ni) { bad = 1; viol("C13:monotone:ni-decreases", "r=%llu: Ni=%u < Ni(r-1)=%llu", r, b.Ni, (unsigned long long)prev_ni); }
             if (iv < prev_iv) { bad = 1; viol("C13:monotone:interval-decreases", "r=%llu: interval %llu < %llu", r, (unsigned long long)iv, (unsigned long long)prev_iv); }
         }
@@ -459,7 +477,7 @@ static int sweep_c13v(int argc, char **argv) {
         uint64_t iv = ts - now, need = ((uint64_t)8 * b.Ni + 2) / 3;
         if (need < 6) need = 6;
         if (ts != b.hello_timeout_ts || iv < need) { bad = 1; viol("C13:interval-below-load-formula", "r=%llu Ni=%u: interval %llu < %llu", r, b.Ni, (unsigned long long)iv, (unsigned long long)need); }
-        if (have_prev && begun && r >= prev_r) {
+        if (have_prev && begun && r >= prev_r && prev_r >= 1) {
             if (b.Ni < prev_ni) { bad = 1; viol("C13:monotone:ni-decreases", "r=%llu: Ni=%u < Ni(%llu)=%llu", r, b.Ni, prev_r, (unsigned long long)prev_ni); }
             if (iv < prev_iv) { bad = 1; viol("C13:monotone:interval-decreases", "r=%llu: interval %llu < %llu", r, (unsigned long long)iv, (unsigned long long)prev_iv); }
         }
@@ -612,7 +630,7 @@ int main(int argc, char **argv) {
     else if (!strcmp(argv[1], "c13v")) rc = sweep_c13v(argc - 2, argv + 2);
     else if (!strcmp(argv[1], "c14")) rc = sweep_c14(argc - 2, argv + 2);
     else if (!strcmp(argv[1], "c15")) rc = sweep_c15(argc - 2, argv + 2);
-    if (n_viol > (unsigned long long)viol_cap) printf("STAT violations_not_printed %llu\n", n_viol - (unsigned long long)viol_cap);
+    viol_summary();
     fflush(stdout);
     return rc;
 }
